@@ -34,3 +34,6 @@ pub mod parser;
 
 #[doc(hidden)]
 pub use util::ArrayVec;
+
+#[cfg(feature = "verif-hooks")]
+pub mod verif_hooks;
